@@ -369,6 +369,29 @@ def battery(repo: Repo, ctx, rule: str, prefixes: Iterable[str],
                      f'value, which is dropped' for f, s_ in hits[:3]) +
            f' -- {consequence}', hits[0][0].loc if hits else '',
            sample=f'{n} call statements', nontrivial=bool(n))
+    n, hits = memo_sites(repo, prefixes)
+    ctx.ob(rule, 'slips:memo-keys', not hits,
+           '; '.join(f'{f.qualname}: memo {cont}: {why}'
+                     for f, cont, k, kind, why in hits[:3]) +
+           f' -- {consequence}', hits[0][0].loc if hits else '',
+           sample=f'{n} memo sites', nontrivial=bool(n))
+    n, hits = lossy_key_maps(repo, prefixes)
+    ctx.ob(rule, 'slips:lossy-key-maps', not hits,
+           '; '.join(f'{f.qualname}: `{norm(c)[:70]}` keeps one element per '
+                     f'shortened key: elements whose names differ only in '
+                     f'the dropped part (overloads) are lost'
+                     for f, c in hits[:3]) + f' -- {consequence}',
+           hits[0][0].loc if hits else '', sample=f'{n} dict comprehensions',
+           nontrivial=bool(n))
+    n, hits = cache_key_equality(repo, prefixes)
+    ctx.ob(rule, 'slips:cache-key-equality', not hits,
+           '; '.join(f'{f.qualname} is cached process-wide on `{p}`; '
+                     f'{k.rsplit(".", 1)[-1]} compares by {eqf} only but '
+                     f'the function reads {extra}: an object rebuilt after '
+                     f'a change of those fields hits the stale entry'
+                     for f, p, k, eqf, extra in hits[:3]) +
+           f' -- {consequence}', hits[0][0].loc if hits else '',
+           sample=f'{n} class-typed cache parameters', nontrivial=bool(n))
     # (unused_locals() is deliberately not armed: leaving a value unused is
     # behaviour-preserving, so it cannot be a violation signal)
     n, hits = loop_slips(repo, prefixes)
@@ -561,3 +584,259 @@ def unused_locals(repo: Repo, prefixes: Iterable[str]):
                         f.qualname, v) not in UNUSED_OK:
                     hits.append((f, v, ns[0].lineno))
     return n, hits
+
+
+# ---------------------------------------------------------------------------
+# memoisation: the key must determine the value
+
+# (function, container) pairs that exist on the tree the rules were written
+# against; each was read: the key either covers every input of the cached
+# computation or the remaining parameters are pure carriers (context objects,
+# the schema the key objects belong to, source spans).
+MEMO_AUDITED = {
+    ('edb.common.parsing.Precedence.__init_subclass__', 'Precedence.last'),
+    ('edb.common.ast.visitor.find_children._find_children', 'visited'),
+    ('edb.common.ast.visitor.NodeVisitor.node_visit', 'self.memo'),
+    ('edb.common.markup.serializer.base.serialize', 'ctx.memo'),
+    ('edb.edgeql.declarative.get_ancestors', 'ancestors'),
+    ('edb.edgeql.tracer.trace_Path', 'ctx.visited'),
+    ('edb.edgeql.compiler.setgen.update_view_map', 'ctx.view_map'),
+    ('edb.edgeql.compiler.stmtctx.declare_view', 'ctx.env.expr_view_cache'),
+    ('edb.edgeql.compiler.stmtctx._declare_view_from_schema',
+     'ctx.env.schema_view_cache'),
+    ('edb.edgeql.compiler.viewgen.process_view', 'ctx.env.shape_type_cache'),
+    ('edb.edgeql.compiler.inference.cardinality.infer_cardinality',
+     'ctx.inferred_cardinality'),
+    ('edb.edgeql.compiler.inference.multiplicity.infer_multiplicity',
+     'ctx.inferred_multiplicity'),
+    ('edb.edgeql.compiler.inference.volatility._infer_volatility',
+     'env.inferred_volatility'),
+    ('edb.ir.typeutils.ptrref_from_ptrcls', 'cache'),
+    ('edb.pgsql.compiler.dml.compile_iterator_cte', 'ctx.dml_stmts'),
+    ('edb.schema.ddl.apply_sdl.process_ext', 'extensions_done'),
+    ('edb.schema.delta.ObjectCommand.__init_subclass__', '_command_registry'),
+    ('edb.schema.delta.AlterSpecialObjectField.__init_subclass__',
+     'special_field_alter_handlers'),
+    ('edb.schema.ordering.reconstruct_tree.maybe_replace_preceding',
+     'opindex'),
+    ('edb.server.compiler.sertypes.StateSerializerFactory.make',
+     'self._contexts'),
+}
+# parameters that carry the computation's environment rather than an input
+# the result is a function of
+MEMO_CARRIERS = {'self', 'cls', 'ctx', 'env', 'schema', 'span', 'context'}
+
+
+def _single_defs(fn: ast.AST):
+    """local -> value for locals bound exactly once by a plain assignment"""
+    cnt, val = {}, {}
+    for n in ast.walk(fn):
+        if isinstance(n, ast.Name) and isinstance(n.ctx, ast.Store):
+            cnt[n.id] = cnt.get(n.id, 0) + 1
+        if isinstance(n, ast.Assign) and len(n.targets) == 1 and \
+                isinstance(n.targets[0], ast.Name):
+            val[n.targets[0].id] = n.value
+        if isinstance(n, ast.NamedExpr) and isinstance(n.target, ast.Name):
+            val.setdefault(n.target.id, n.value)
+    return {k: v for k, v in val.items() if cnt.get(k) == 1}
+
+
+def _inline(e: ast.AST, defs, depth=3) -> ast.AST:
+    import copy
+    e = copy.deepcopy(e)
+    for _ in range(depth):
+        changed = False
+
+        class T(ast.NodeTransformer):
+            def visit_Name(self, node):
+                nonlocal changed
+                if isinstance(node.ctx, ast.Load) and node.id in defs and \
+                        not isinstance(defs[node.id], (ast.Call, ast.Await)) \
+                        or (isinstance(node.ctx, ast.Load) and node.id in defs
+                            and isinstance(defs[node.id], ast.Call)
+                            and norm(defs[node.id].func) == 'id'):
+                    changed = True
+                    return copy.deepcopy(defs[node.id])
+                return node
+        e = T().visit(e)
+        if not changed:
+            break
+    return e
+
+
+def memo_sites(repo: Repo, prefixes: Iterable[str]):
+    """(function, container text, key expr, kind of problem, detail) for
+    every lookup-then-store memo in the given packages."""
+    out = []
+    n_sites = 0
+    for m in repo.modules.values():
+        if not m.name.startswith(tuple(prefixes)):
+            continue
+        for f in repo._funcs_of(m):
+            fn = f.node
+            a = fn.args
+            params = [x.arg for x in a.posonlyargs + a.args + a.kwonlyargs]
+            defs = _single_defs(fn)
+            lookups = []
+            for n in ast.walk(fn):
+                if isinstance(n, ast.If):
+                    tests = n.test.values if isinstance(
+                        n.test, ast.BoolOp) else [n.test]
+                    for t in tests:
+                        if isinstance(t, ast.Compare) and len(t.ops) == 1:
+                            if isinstance(t.ops[0], ast.In) and any(
+                                    isinstance(x, ast.Return)
+                                    for x in n.body):
+                                lookups.append((t.comparators[0], t.left))
+                            # (v := C.get(K)) is not None
+                            if isinstance(t.ops[0], ast.IsNot) and \
+                                    isinstance(t.left, ast.NamedExpr):
+                                c = t.left.value
+                                if isinstance(c, ast.Call) and isinstance(
+                                        c.func, ast.Attribute) and \
+                                        c.func.attr == 'get' and c.args:
+                                    lookups.append((c.func.value, c.args[0]))
+                if isinstance(n, ast.Try):
+                    for st in n.body:
+                        if isinstance(st, ast.Return) and isinstance(
+                                st.value, ast.Subscript) and any(
+                                h.type is not None and 'KeyError' in
+                                norm(h.type) for h in n.handlers):
+                            lookups.append((st.value.value, st.value.slice))
+                if isinstance(n, ast.Assign) and isinstance(
+                        n.value, ast.Call) and isinstance(
+                        n.value.func, ast.Attribute) and \
+                        n.value.func.attr == 'get' and n.value.args:
+                    lookups.append((n.value.func.value, n.value.args[0]))
+            seen = set()
+            for cont_e, key_e in lookups:
+                cont = norm(_inline(cont_e, defs))
+                ktxt = norm(key_e)
+                if (cont, ktxt) in seen:
+                    continue
+                stored = False
+                for n in ast.walk(fn):
+                    if isinstance(n, ast.Assign) and any(
+                            isinstance(t, ast.Subscript) and
+                            norm(_inline(t.value, defs)) == cont and
+                            norm(t.slice) == ktxt for t in n.targets):
+                        stored = True
+                    if isinstance(n, ast.Call) and isinstance(
+                            n.func, ast.Attribute) and n.func.attr in (
+                            'add', 'setdefault') and norm(_inline(
+                                n.func.value, defs)) == cont and n.args \
+                            and norm(n.args[0]) == ktxt:
+                        stored = True
+                if not stored:
+                    continue
+                root = cont.split('.')[0].split('[')[0]
+                if root in defs or (root not in params and any(
+                        isinstance(x, ast.Name) and x.id == root and
+                        isinstance(x.ctx, ast.Store)
+                        for x in ast.walk(fn))):
+                    continue        # a container local to this call
+                seen.add((cont, ktxt))
+                n_sites += 1
+                if (f.qualname.split('@')[0], cont) in MEMO_AUDITED:
+                    continue
+                key_full = _inline(key_e, defs)
+                kn = {x.id for x in ast.walk(key_full)
+                      if isinstance(x, ast.Name)}
+                used = {x.id for x in ast.walk(fn) if isinstance(x, ast.Name)
+                        and isinstance(x.ctx, ast.Load)}
+                missing = [p for p in params if p not in kn and p in used
+                           and p not in MEMO_CARRIERS and p != root]
+                if any(isinstance(x, ast.Call) and norm(x.func) == 'id'
+                       for x in ast.walk(key_full)):
+                    out.append((f, cont, ktxt, 'identity-key',
+                                'the key is id(...) of an object the memo '
+                                'does not keep alive: once that object is '
+                                'freed its address can be reused and the '
+                                'memo answers for a different object'))
+                elif missing:
+                    out.append((f, cont, ktxt, 'key-misses-input',
+                                f'the memo is keyed by `{ktxt}` only, but '
+                                f'the function also depends on '
+                                f'{missing}: a later call that differs in '
+                                f'those gets the value computed for the '
+                                f'first one'))
+    return n_sites, out
+
+
+def lossy_key_maps(repo: Repo, prefixes: Iterable[str]):
+    """{proj(x): x for x in xs} where proj drops part of the element's name
+    (split / partition / lower): elements that collide keep only the last"""
+    out = []
+    n = 0
+    LOSSY = ('split', 'rsplit', 'partition', 'rpartition', 'lower',
+             'casefold', 'upper')
+    for m in repo.modules.values():
+        if not m.name.startswith(tuple(prefixes)):
+            continue
+        for f in repo._funcs_of(m):
+            for c in ast.walk(f.node):
+                if not isinstance(c, ast.DictComp):
+                    continue
+                n += 1
+                var = {x.id for g in c.generators for x in ast.walk(g.target)
+                       if isinstance(x, ast.Name)}
+                key_lossy = any(
+                    isinstance(x, ast.Call) and isinstance(
+                        x.func, ast.Attribute) and x.func.attr in LOSSY
+                    for x in ast.walk(c.key))
+                val_is_elem = isinstance(c.value, ast.Name) and \
+                    c.value.id in var
+                if key_lossy and val_is_elem:
+                    out.append((f, c))
+    return n, out
+
+
+def cache_key_equality(repo: Repo, prefixes: Iterable[str]):
+    """A process-wide functools cache keyed by an object whose class compares
+    by a subset of its fields, while the cached function reads other fields
+    of that object: two objects that are `equal` for the cache but differ in
+    what the function looks at share one answer (the one computed first)."""
+    out = []
+    n = 0
+    for m in repo.modules.values():
+        if not m.name.startswith(tuple(prefixes)):
+            continue
+        for f in repo._funcs_of(m):
+            decs = [norm(d) for d in f.node.decorator_list]
+            if not any('lru_cache' in d or d.startswith('functools.cache')
+                       and 'cached_property' not in d for d in decs):
+                continue
+            a = f.node.args
+            for p in a.posonlyargs + a.args + a.kwonlyargs:
+                if p.annotation is None:
+                    continue
+                ann = p.annotation
+                while isinstance(ann, ast.Subscript):   # Optional[X]
+                    ann = ann.slice
+                qn = repo.resolve_expr(m, ann)
+                if qn is None or qn not in repo.classes:
+                    continue
+                n += 1
+                reads = set()
+                called = {id(c.func) for c in ast.walk(f.node)
+                          if isinstance(c, ast.Call)}
+                for x in ast.walk(f.node):
+                    if isinstance(x, ast.Attribute) and isinstance(
+                            x.value, ast.Name) and x.value.id == p.arg \
+                            and id(x) not in called:
+                        reads.add(x.attr)
+                if not reads:
+                    continue
+                for k in repo.subclasses(qn):
+                    c = repo.classes[k]
+                    eq = c.methods.get('__eq__')
+                    if eq is None:
+                        continue
+                    eq_fields = {x.attr for x in ast.walk(eq.node)
+                                 if isinstance(x, ast.Attribute) and
+                                 isinstance(x.value, ast.Name) and
+                                 x.value.id == 'self'}
+                    extra = sorted(reads - eq_fields)
+                    if extra:
+                        out.append((f, p.arg, k, sorted(eq_fields), extra))
+    return n, out
